@@ -13,6 +13,16 @@ CLAIMED["C09"]=dict(
    text="Exploration: 20k (quick) to 1M (thorough) generated inputs <= 4 KiB plus a hand list and the whole corpus; process death, caught panics, ill-formed spans and unrenderable errors are violations; three recorded known findings (checker ICEs on ill-kinded/ill-formed types) are matched by panic site + input feature so the search continues behind them.",
    note="moderate nesting fixed as <= 64 generated levels on an 8 MiB stack; watchdog time-outs are inconclusive",
    ref="6 C09")
+CLAIMED["C01"]=dict(
+   technique="property-based testing against a reference interpreter: proptest/tape-driven type-directed program generator, independent big-step evaluator as oracle, values read back guided by their type",
+   text="Exploration: 8k (quick) / 200k (thorough) generated well-typed terminating programs over closures, partial/over-application, rec groups, records (>4 fields, update, projection), tuples, variants, arrays, nested/literal/as patterns, short-circuit operators, failures and host calls, printed in random legal styles and run with optimisation on and off; outcome and host-call log compared with the reference interpreter.",
+   note="oracle = harness interpreter (strict CBV, left-to-right); do/seq and implicit-argument dispatch beyond the prelude operators are not generated yet; programs the front end rejects are counted inconclusive",
+   ref="6 C01")
+CLAIMED["C04"]=dict(
+   technique="differential property-based testing: the same generated program compiled with optimisation on and off in two VMs; outcome and host-call sequence compared",
+   text="Exploration: 8k (quick) / 200k (thorough) generated programs biased toward discarded bindings with host calls, failures and overflow-prone arithmetic; any difference other than a skipped arithmetic overflow is a violation.",
+   note="when the unoptimised run overflows and the optimised one does not the case is counted but not compared further (the permitted difference); single-module programs only so far",
+   ref="6 C04")
 NOT_YET = {}
 def main():
     props=[json.loads(l) for l in open('/verif/properties.jsonl')]
